@@ -185,6 +185,10 @@ func runBounded(p *Program, er *ExtraResult, pkgShort string, names []string, ti
 		}
 		rec["cases"] = cases
 		rec["bounds"] = bounds
+		if _, bad := rec["violation"]; !bad && goPanicIn(txt, name) {
+			// the real code panicked on an in-bounds input of this test: that is the failing case
+			rec["violation"] = "GOVC-BOUNDED-FAIL " + name + " the code under test panicked: " + firstLines(panicSummary(txt), 8)
+		}
 		if _, bad := rec["violation"]; !bad && cases == 0 {
 			if strings.Contains(txt, "SIGSEGV") || strings.Contains(txt, "signal arrived during cgo execution") || strings.Contains(txt, "fatal error:") {
 				// the test process died: a crash is the violation (the last lines show where)
@@ -198,6 +202,37 @@ func runBounded(p *Program, er *ExtraResult, pkgShort string, names []string, ti
 		}
 		er.Bounded = append(er.Bounded, rec)
 	}
+}
+
+// goPanicIn reports whether the bounded test TestGovcBounded<name> itself ended in a Go panic
+// ("--- FAIL: TestGovcBounded<Name>" followed by "panic:"): a run-time panic of the code under test.
+func goPanicIn(txt, name string) bool {
+	low := strings.ToLower(txt)
+	i := strings.Index(low, "--- fail: testgovcbounded"+strings.ToLower(name)+" ")
+	if i < 0 {
+		return false
+	}
+	return strings.Contains(low[i:], "\npanic:")
+}
+
+func panicSummary(txt string) string {
+	var keep []string
+	on := false
+	for _, l := range strings.Split(txt, "\n") {
+		if strings.HasPrefix(l, "panic:") {
+			on = true
+		}
+		if !on {
+			continue
+		}
+		if strings.HasPrefix(l, "panic:") || (strings.Contains(l, "github.com/douban/gobeansdb") && !strings.Contains(l, "zz_govc_bounded")) {
+			keep = append(keep, strings.TrimSpace(l))
+		}
+		if len(keep) >= 8 {
+			break
+		}
+	}
+	return strings.Join(keep, "\n")
 }
 
 func crashSummary(txt string) string {
